@@ -27,6 +27,8 @@ pub struct CaseState {
     pub probes: BTreeMap<String, u64>,
     pub progress: Option<(u64, u64)>,
     pub harness_error: Option<String>,
+    /// coverage keys "dimension:value" (distinct values per dimension are counted across runs)
+    pub cover: std::collections::BTreeSet<String>,
 }
 
 /// Handle a scenario uses to report what it saw. Cloneable across simulated threads;
@@ -70,6 +72,10 @@ impl Case {
     }
     pub fn probe_by(&self, name: &str, n: u64) {
         *self.st.lock().unwrap().probes.entry(name.to_string()).or_insert(0) += n;
+    }
+    /// Record that this run exercised `value` of coverage dimension `dim`.
+    pub fn cover(&self, dim: &str, value: impl std::fmt::Display) {
+        self.st.lock().unwrap().cover.insert(format!("{dim}:{value}"));
     }
     pub fn progress(&self, done: u64, total: u64) {
         self.st.lock().unwrap().progress = Some((done, total));
@@ -172,6 +178,7 @@ pub struct CaseResult {
     pub probes: BTreeMap<String, u64>,
     pub counters: BTreeMap<String, u64>,
     pub progress: Option<(u64, u64)>,
+    pub cover: Vec<String>,
     pub hash: u64,
     pub steps: u64,
     pub switches: u64,
@@ -243,6 +250,7 @@ pub fn run_case(fam: &Family, tier: Tier, choices: Choices, trace: bool) -> Case
         probes: st.probes,
         counters: report.counters,
         progress: st.progress,
+        cover: st.cover.into_iter().collect(),
         hash: report.hash,
         steps: report.steps,
         switches: report.switches,
@@ -271,6 +279,7 @@ pub fn result_line(seed: u64, index: u64, r: &CaseResult) -> Value {
         "counters": r.counters,
         "progress": r.progress.map(|(a, b)| json!([a, b])),
         "sample": r.sample,
+        "cover": r.cover,
         "choices_len": r.choices.len(),
     })
 }
